@@ -383,14 +383,14 @@ func (ev *Eval) Find(p *Atom) []map[string]*Term {
 	return out
 }
 
-var entryLabels = []string{idE1, idE2, idE3, idE4}
+func entryLabels() []string { return []string{idE1, idE2, idE3, idE4} }
 
 func (ev *Eval) key(rule, kind string) string {
 	entry := ev.E.Entry
 	// the nearest known entry on the call path labels the obligation (a drain reached from a sync is still "the drain")
 	for i := len(ev.E.Path) - 1; i >= 0; i-- {
 		found := false
-		for _, l := range entryLabels {
+		for _, l := range entryLabels() {
 			if ev.E.Path[i].Fn == l {
 				entry = l
 				found = true
